@@ -67,6 +67,23 @@ class RichData:
         self._x, self._y, self._r, self._t = None, None, None, None
 
     @property
+    def data(self):
+        """The array of values."""
+        return self._data
+
+    @data.setter
+    def data(self, data):
+        """Set a new data array; cached coordinates of another shape are dropped."""
+        shape = getattr(data, 'shape', None)
+        grids = (getattr(self, name, None) for name in ('_x', '_y', '_r', '_t'))
+        if any(g is not None and getattr(g, 'shape', None) != shape for g in grids):
+            # x, y, r, t were generated for (or assigned beside) an array of
+            # another shape and cannot describe this one: regenerate on demand
+            self._x, self._y, self._r, self._t = None, None, None, None
+
+        self._data = data
+
+    @property
     def shape(self):
         """Proxy to phase or data shape."""
         return self.data.shape
